@@ -5,7 +5,7 @@ import PewModel.Srr
 `pewlib.srr.config.SRRConfig.get_pixel_* / data_extent`, `pewlib.srr.srr.SRRLaser.extent`)
 
 Exact arithmetic over `Rat`.  Mechanism: `Cfg.pixelWidth/pixelHeight/dataExtent`, `laserExtent`,
-`toArray/fromArray`, the index conversion `toIndex = int(round(q, 6))` and `getQ/get`
+`toRec/fromRec` (the structured arrays), the index conversion `toIndex = int(round(q, 6))` and `getQ/get`
 (Python slicing of the four converted indices), `srrPixelWidth/…/srrDataExtent`, `srrLaserExtent`.
 Specification: `extentSpec`, `rectSpec`, and the shape of the reconstruction (`Srr.reconRows/Cols`).
 
@@ -66,17 +66,45 @@ def Cfg.specExtent (c : Cfg) (rows cols : Nat) : Ext :=
   | .raster spotsize speed scantime => extentSpec (speed * scantime) spotsize rows cols
   | .spot sx sy => extentSpec sx sy rows cols
 
-/-- `to_array`: the record of float64 fields -/
-def Cfg.toArray : Cfg → List Rat
-  | .raster spotsize speed scantime => [spotsize, speed, scantime]
-  | .spot sx sy => [sx, sy]
+/-! ### the array form (`to_array` / `from_array`), as NumPy builds it
 
-/-- `from_array` of the class `k` -/
-def Cfg.fromArray (k : Kind) (a : List Rat) : Option Cfg :=
-  match k, a with
-  | .raster, [spotsize, speed, scantime] => some (.raster spotsize speed scantime)
-  | .spot, [sx, sy] => some (.spot sx sy)
-  | _, _ => none
+`Config.to_array`: a 0-d structured array with the float64 fields `spotsize, speed, scantime`.
+`SpotConfig.to_array`: `np.array([spotsize, spotsize_y], dtype=[("spotsize", f8)])`, i.e. shape `(2,)` with ONE field:
+element 0 holds the x spacing and element 1 the y spacing.  `from_array` reads by field name (`Srr.RecArr`, shared
+with `SRRConfig`), so it also answers for arrays of the other classes. -/
+open Pew.Srr (RecArr FVal ArrErr)
+
+def Cfg.toRec : Cfg → RecArr
+  | .raster spotsize speed scantime =>
+    { names := ["spotsize", "speed", "scantime"], dim := none, recs := [[.num spotsize, .num speed, .num scantime]] }
+  | .spot sx sy => { names := ["spotsize"], dim := some 2, recs := [[.num sx], [.num sy]] }
+
+/-- `array["spotsize"][i]` of a 1-d array -/
+def spotElem (col : List FVal) (i : Nat) : Except ArrErr Rat :=
+  match col[i]? with
+  | some (.num v) => pure v
+  | some (.table _) => throw .unmodelled
+  | none => throw .indexError
+
+/-- `from_array` of the class `k`.
+`Config.from_array`: `float(array["spotsize"])`, `float(array["speed"])`, `float(array["scantime"])` in this order
+(a missing field is a ValueError, an array that is not 0-d a TypeError; further fields are ignored).
+`SpotConfig.from_array`: `array["spotsize"][0]`, then `[1]` (a 0-d array cannot be indexed: IndexError). -/
+def Cfg.fromRec (k : Kind) (a : RecArr) : Except ArrErr Cfg :=
+  match k with
+  | .raster => do
+    let spotsize ← a.floatField "spotsize"
+    let speed ← a.floatField "speed"
+    let scantime ← a.floatField "scantime"
+    pure (.raster spotsize speed scantime)
+  | .spot => do
+    let col ← a.field "spotsize"
+    match a.dim with
+    | none => throw .indexError
+    | some _ =>
+      let sx ← spotElem col 0
+      let sy ← spotElem col 1
+      pure (.spot sx sy)
 
 /-! ## extent → index conversion and `Laser.get(extent=…)` -/
 
